@@ -302,6 +302,9 @@ func (r *Run) Finish() int {
 	}
 	cov["exhaustive"] = exhaustive
 	cov["deadline_hit"] = r.deadlineHit
+	if r.completed == nil {
+		r.completed = []string{}
+	}
 	cov["completed_levels"] = r.completed
 	if len(r.incomplete) > 0 {
 		cov["incomplete_levels"] = r.incomplete
@@ -310,6 +313,12 @@ func (r *Run) Finish() int {
 	cov["new_violation_signatures"] = nNew
 	if distinct < 2 {
 		cov["vacuous"] = true
+	}
+	if r.assumptions == nil {
+		r.assumptions = []string{}
+	}
+	if r.completed == nil {
+		r.completed = []string{}
 	}
 	evd := map[string]any{
 		"property_id": r.ID, "tier": r.Tier, "seed": r.Seed, "level": r.Level,
